@@ -2,6 +2,8 @@
 Throws x gender x every age-group label (those the library produces and arbitrary others); pass-through of every other code of the
 canonical set; masters monotonicity over consecutive bands; every key of every bundled table through the event-code checker."""
 import re, json, os
+from vlib import concpass
+from checks import crossapi
 from vlib import common, rxmc
 from vlib import orderpass
 from vlib.common import Report, Violation, HarnessError, Acc, pmap, merge
@@ -138,10 +140,14 @@ def run(tier):
     I = 'athlib.implements:get_specific_event_code'
     oc = [(I, (e, g, a)) for e in ('SP', 'sp', 'JT', 'HT', 'WT', 'DT', '4x100', '100', 'SPB') for g, a in (('M', 'SEN'), ('F', 'U17'), ('M', 'V60'), ('F', 'V100'), ('M', 'U13'))]
     orderpass.part(rep, oc, 'implement-code call-order pass')
+    crossapi.part(rep, PID, tier)
+    concpass.part(rep, PID, tier)
     return rep.finish()
 
 
 def replay(rec):
+    if concpass.is_conc(rec):
+        return concpass.replay(rec)
     athlib = common.bind_repo()
     c = rec['case']
     print(rec['sig'], '-', rec['msg'])
